@@ -251,10 +251,48 @@ fn two_setters(vals: &[Vec<u8>]) -> i32 {
     let whole = (fa, fd) == (aa, da) || (fa, fd) == (ab, db);
     if !whole || gate < fa.max(fd) {
         println!("REPRODUCED: final spec/gate inconsistent (gate admits up to {gate}, spec enables up to {})", fa.max(fd));
-        1
-    } else {
-        0
+        return 1;
     }
+    // The deterministic window (inside reconfigure) did not show it. Schedule points that lie
+    // *between two lock acquisitions* cannot be forced through the public API: race two real
+    // threads for a bounded time and check the same post-condition after every round.
+    let deadline = std::time::Instant::now() + std::time::Duration::from_secs(6);
+    let mut rounds = 0u64;
+    while std::time::Instant::now() < deadline {
+        rounds += 1;
+        let (logger2, h1) = Logger::with(spec_of(0, 0)).do_not_log().build().expect("build");
+        let h2 = h1.clone();
+        let barrier = Arc::new(std::sync::Barrier::new(2));
+        let b2 = Arc::clone(&barrier);
+        let sb = spec_of(ab, db);
+        let t = std::thread::spawn(move || {
+            b2.wait();
+            h2.set_new_spec(sb);
+            std::mem::forget(h2);
+        });
+        barrier.wait();
+        h1.set_new_spec(spec_of(aa, da));
+        t.join().ok();
+        let rank2 = |target: &str| {
+            let mut r = 0;
+            for (i, l) in [Level::Error, Level::Warn, Level::Info, Level::Debug, Level::Trace].iter().enumerate() {
+                if logger2.enabled(&log::Metadata::builder().level(*l).target(target).build()) {
+                    r = i as u64 + 1;
+                }
+            }
+            r
+        };
+        let (fa, fd) = (rank2("ab"), rank2("b"));
+        let gate = log::max_level() as usize as u64;
+        std::mem::forget(h1);
+        let whole = (fa, fd) == (aa, da) || (fa, fd) == (ab, db);
+        if !whole || gate < fa.max(fd) {
+            println!("REPRODUCED (race, round {rounds}): final spec=(a={fa},default={fd}) gate={gate}");
+            return 1;
+        }
+    }
+    println!("not reproduced: deterministic window consistent, {rounds} racing rounds consistent");
+    0
 }
 
 /// c05_rejected_push_then_pop: vals = a0,d0,a1,d1 (u64 ranks).
@@ -294,6 +332,84 @@ fn rejected_push_then_pop(vals: &[Vec<u8>]) -> i32 {
     }
 }
 
+/// c06_highest_compressed: a directory that only holds a *compressed* rotated file with number 3
+/// and a current file; a restarted logger (Numbers naming, no append) must rotate the current
+/// file to number 4, not re-use a number at or below 3.
+fn highest_index_gz(_vals: &[Vec<u8>]) -> i32 {
+    use flexi_logger::writers::FileLogWriter;
+    use flexi_logger::{Cleanup, Criterion, FileSpec, Naming};
+    let dir = std::env::temp_dir().join(format!("verif_replay_gz_{}", std::process::id()));
+    let _ = std::fs::remove_dir_all(&dir);
+    std::fs::create_dir_all(&dir).unwrap();
+    std::fs::write(dir.join("b_r00003.log.gz"), b"earlier run, compressed").unwrap();
+    std::fs::write(dir.join("b_rCURRENT.log"), b"earlier run, current\n").unwrap();
+    let flw = FileLogWriter::builder(FileSpec::default().directory(&dir).basename("b").suppress_timestamp())
+        .rotate(Criterion::Size(1_000_000), Naming::Numbers, Cleanup::Never)
+        .try_build()
+        .expect("build");
+    let mut now = DeferredNow::new();
+    flw.write(&mut now, &log::Record::builder().level(Level::Info).target("t").args(format_args!("new run")).build()).unwrap();
+    flw.shutdown();
+    let mut names: Vec<String> = std::fs::read_dir(&dir).unwrap().flatten().map(|e| e.file_name().to_string_lossy().to_string()).collect();
+    names.sort();
+    println!("files after restart: {names:?}");
+    let reused = names.iter().any(|n| n == "b_r00000.log" || n == "b_r00001.log" || n == "b_r00002.log" || n == "b_r00003.log");
+    let _ = std::fs::remove_dir_all(&dir);
+    if reused {
+        println!("REPRODUCED: the earlier current file was rotated to a number at or below the existing compressed file's number 3");
+        1
+    } else {
+        0
+    }
+}
+
+/// c14_filter_* / c10_filter_multibyte_boundary: foreign near-miss files in the log directory.
+/// which = "separator" | "tail" | "multibyte"
+fn foreign_listing(path: &str) -> i32 {
+    use flexi_logger::writers::FileLogWriter;
+    use flexi_logger::{Cleanup, Criterion, FileSpec, LogfileSelector, Naming};
+    let harness = json_str(path, "harness").unwrap_or_default();
+    let foreign = if harness.contains("separator") {
+        "bXr00001.log"
+    } else if harness.contains("tail") {
+        "b_r00001.x.log"
+    } else {
+        "b\u{e9}r01.log"
+    };
+    let dir = std::env::temp_dir().join(format!("verif_replay_foreign_{}", std::process::id()));
+    let _ = std::fs::remove_dir_all(&dir);
+    std::fs::create_dir_all(&dir).unwrap();
+    std::fs::write(dir.join(foreign), b"not a log file of this logger").unwrap();
+    let dir2 = dir.clone();
+    let r = std::panic::catch_unwind(move || {
+        let flw = FileLogWriter::builder(FileSpec::default().directory(&dir2).basename("b").suppress_timestamp())
+            .rotate(Criterion::Size(1_000_000), Naming::Numbers, Cleanup::Never)
+            .try_build()
+            .expect("build");
+        let mut now = DeferredNow::new();
+        flw.write(&mut now, &log::Record::builder().level(Level::Info).target("t").args(format_args!("x")).build()).unwrap();
+        let files = flw.existing_log_files(&LogfileSelector::default()).unwrap();
+        flw.shutdown();
+        files
+    });
+    let _ = std::fs::remove_dir_all(&dir);
+    match r {
+        Err(_) => {
+            println!("REPRODUCED: listing / start panicked with the foreign file {foreign:?} in the directory");
+            1
+        }
+        Ok(files) => {
+            println!("foreign file {foreign:?}; listed as own log files: {files:?}");
+            if files.iter().any(|p| p.file_name().map(|n| n.to_string_lossy() == foreign).unwrap_or(false)) {
+                println!("REPRODUCED: the foreign file is listed as a rotated log file of the family");
+                1
+            } else {
+                0
+            }
+        }
+    }
+}
+
 fn main() {
     let args: Vec<String> = std::env::args().collect();
     if args.len() < 3 {
@@ -306,6 +422,8 @@ fn main() {
         "target_no_panic" => target_no_panic(&args[2], &vals),
         "two_setters" => two_setters(&vals),
         "rejected_push_then_pop" => rejected_push_then_pop(&vals),
+        "highest_index_gz" => highest_index_gz(&vals),
+        "foreign_listing" => foreign_listing(&args[2]),
         other => {
             eprintln!("unknown replayer {other}");
             3
